@@ -1,7 +1,7 @@
 (* Props/C12.v — statements only: density, natural density, isotope substitution, cell volume. *)
-From Coq Require Import Reals ZArith QArith Qreals String Ascii List Bool.
+From Coq Require Import Reals ZArith QArith Qabs Qreals String Ascii List Bool.
 From PT Require Import Str Dec Py Loaders Formula FormulaAlg FormulaMachine AtomEnv Pyparse TableEnv Mixture PyparseMix
-                       IExpr Density C12Proofs C12Volume.
+                       IExpr ICheck Density C12Proofs C12Volume C12Sound.
 Import ListNotations.
 Open Scope Q_scope.
 
@@ -233,3 +233,17 @@ Theorem C12_volume_additive : forall env rs1 rs2 pf,
   evalR env (volume_packing rs1 pf) + evalR env (volume_packing rs2 pf).
 Proof. exact volume_additive. Qed.
 Print Assumptions C12_volume_additive.
+
+(* ================================================================ what the volume comparison of the tie means *)
+(* the rational bounds computed inside Coq enclose the real value of the expression *)
+Theorem C12_enclose_sound : forall e lo hi, enclose e = Some (lo, hi) -> Q2R lo <= evalR no_env_R e <= Q2R hi.
+Proof. exact enclose_sound. Qed.
+Print Assumptions C12_enclose_sound.
+
+(* an implementation double accepted by the check is within (width of the enclosure) + 2^tp * max|bound|
+   of the real value of the model expression *)
+Theorem C12_volume_check_sound : forall tp v e p, py_Q v = Some p -> chk_expr_rel tp v e = true ->
+  exists lo hi, enclose e = Some (lo, hi) /    Q2R lo <= evalR no_env_R e <= Q2R hi /    let t := Q2R (Qmax (Qabs lo) (Qabs hi) * D2Q 1 tp) in
+    Q2R lo - t <= Q2R p <= Q2R hi + t /    Rabs (Q2R p - evalR no_env_R e) <= (Q2R hi - Q2R lo) + t.
+Proof. exact chk_expr_rel_sound. Qed.
+Print Assumptions C12_volume_check_sound.
